@@ -1,6 +1,6 @@
 //! Helpers shared by the checks.
 
-use crate::core::Ctx;
+use crate::core::{Case, ChunkOut, Ctx};
 use crate::imp::{self, Out, EK};
 use crate::refparse::{self, Dialect, Parsed, Verdict};
 use crate::sem::{Caps, Fl, Paths, Sem};
@@ -80,4 +80,58 @@ pub fn substr(chars: &[char], a: usize, b: usize) -> String {
 
 pub fn show_spans(v: &[(usize, usize)]) -> String {
     format!("{:?}", v)
+}
+
+
+/// Every valid flag string of up to four characters over `s m i x q ; g k K` (the
+/// letters after ';' are engine-specific options without effect): the flag
+/// `letter` must act exactly when it occurs before the ';', whatever else the
+/// string contains. Returns the number of flag strings visited.
+pub fn flag_effect(out: &mut ChunkOut, prop: &'static str, letter: char) -> u64 {
+    const L: [&str; 9] = ["s", "m", "i", "x", "q", ";", "g", "k", "K"];
+    let mut n = 0;
+    for len in 0..=4usize {
+        let total = (L.len() as u64).pow(len as u32);
+        for idx in 0..total {
+            let d = crate::util::nth_token_string(&L, len, idx);
+            let f = crate::gen::tokens_to_string(&L, &d);
+            if crate::checks::c07::ref_flags(&f) != Some(true) && !(f.contains(';') && f.split(';').next().unwrap().chars().all(|c| "smixq".contains(c)) && f.splitn(2, ';').nth(1).unwrap().chars().all(|c| "gkK".contains(c))) {
+                continue;
+            }
+            let head = f.split(';').next().unwrap();
+            let has = |c: char| head.contains(c);
+            for xsd in [false, true] {
+                if xsd && has('q') {
+                    continue;
+                }
+                // (pattern, input, expected)
+                let probes: Vec<(&str, &str, bool)> = match letter {
+                    'i' => vec![("Ab", "ab", has('i')), ("Ab", "Ab", true)],
+                    'm' if !has('q') && !xsd => vec![("^b", "a\nb", has('m')), ("a$", "a\nb", has('m'))],
+                    's' if !has('q') => vec![("a.b", "a\nb", has('s')), ("a.b", "a\rb", has('s')), ("a.b", "axb", true)],
+                    'x' if has('q') => vec![("a b", "ab", false), ("a b", "a b", true)],
+                    'x' => vec![("a b", "ab", has('x')), ("a b", "a b", !has('x')), ("[a ]b", " b", true)],
+                    'q' if !xsd => vec![("a.b|c", "a.b|c", true), ("a.b|c", "axb", !has('q')), ("a.b|c", "c", !has('q'))],
+                    _ => vec![],
+                };
+                for (pat, inp, want) in probes {
+                    out.inc("states");
+                    n += 1;
+                    match imp::compile(pat, &f, xsd) {
+                        Out::Ok(re) => {
+                            if let Out::Ok(got) = imp::is_match(&re, inp) {
+                                out.inc("validated");
+                                if got != want {
+                                    out.fail(prop, &Case::new("FLAGS", pat, &f).xsd(xsd).input(inp).api("is_match"), "FlagEffect", &want.to_string(), &got.to_string(), &format!("flag {} {} in the flag string", letter, if has(letter) { "occurs" } else { "does not occur" }));
+                                }
+                            }
+                        }
+                        o if o.is_crash() => out.inc("inconclusive_crash"),
+                        _ => out.inc("flag_string_rejected_see_C07"),
+                    }
+                }
+            }
+        }
+    }
+    n
 }
